@@ -28,9 +28,9 @@ type ReplayFile struct {
 
 // nativeReplay runs the given replay files against the real build of /repo
 // (harness injected through `go test -overlay`) and returns outcome per file.
-func nativeReplay(dir string, files []string) (map[string]string, string, error) {
+func nativeReplay(dir string, files []string, validate ...string) (map[string]string, string, error) {
 	out := map[string]string{}
-	if len(files) == 0 {
+	if len(files) == 0 && len(validate) == 0 {
 		return out, "", nil
 	}
 	pkgName := pkgNameFor(dir)
@@ -64,7 +64,7 @@ func nativeReplay(dir string, files []string) (map[string]string, string, error)
 	cmd := exec.Command("go", args...)
 	cmd.Dir = repoDir
 	cmd.Env = append(os.Environ(), "GOFLAGS=-mod=mod", "GOPROXY=off", "GOSUMDB=off", "GOTOOLCHAIN=local",
-		"VP_REPLAY="+strings.Join(files, ":"), "GOCACHE="+goCacheDir())
+		"VP_REPLAY="+strings.Join(files, ":"), "VP_VALIDATE="+strings.Join(validate, ","), "GOCACHE="+goCacheDir())
 	var buf bytes.Buffer
 	cmd.Stdout = &buf
 	cmd.Stderr = &buf
@@ -83,6 +83,13 @@ func nativeReplay(dir string, files []string) (map[string]string, string, error)
 	sc.Buffer(make([]byte, 1<<20), 1<<24)
 	for sc.Scan() {
 		line := sc.Text()
+		if strings.HasPrefix(line, "VPMODEL name=") {
+			rest := strings.TrimPrefix(line, "VPMODEL name=")
+			if i := strings.Index(rest, " "); i > 0 {
+				out["model:"+rest[:i]] = rest[i+1:]
+			}
+			continue
+		}
 		if !strings.HasPrefix(line, "VPRESULT file=") {
 			continue
 		}
